@@ -157,6 +157,23 @@ func genTTParams(c *sim.Ctx, st *sim.Stream) *ref.TTParams {
 	if ns > 0 || !nilMaps {
 		p.Str = map[string]string{}
 	}
+	if st.Chance(1, 80) {
+		// more than a thousand entries in one section (a few KiB of header)
+		big := []int{1023, 1024, 1025, 1500, 3000}[st.Choose(5)]
+		if st.Chance(1, 2) {
+			p.Int = map[uint16]string{}
+			for j := 0; j < big; j++ {
+				p.Int[uint16(j)] = string(rune('a' + j%26))
+			}
+			ni = 0
+		} else {
+			p.Str = map[string]string{}
+			for j := 0; j < big; j++ {
+				p.Str[fmt.Sprintf("k%d", j)] = ""
+			}
+			ns = 0
+		}
+	}
 	for i := 0; i < ni; i++ {
 		k := uint16(st.Choose(65536))
 		if st.Chance(1, 2) {
